@@ -702,8 +702,20 @@ def replay(path):
     if not w or "term" not in w:
         print("replay file names an obligation, not an input:", d.get("obligation") or d.get("kind")); return 1
     t = tup(w["term"])
-    for h in w.get("history", [])[:-1]:          # stateful witnesses: ask the earlier queries first, in order
-        print("history:", str(to_z3(tup(h)))[:80], "->", impl_nifr(tup(h)))
+    if "history" in w:
+        # stateful witness: the answer after the recorded earlier calls must equal the answer of a fresh process
+        import subprocess
+        code = ("import sys, json; sys.setrecursionlimit(20000); import c15; "
+                "print('FRESH', json.dumps(c15.impl_nifr(c15.tup(json.loads(sys.argv[1])))))")
+        pr = subprocess.run([sys.executable, "-W", "ignore", "-c", code, json.dumps(w["term"])], capture_output=True, text=True)
+        fresh = [l for l in pr.stdout.splitlines() if l.startswith("FRESH ")]
+        fresh = tup(json.loads(fresh[0][6:])) if fresh else None
+        for h in w["history"][:-1]:
+            print("earlier call:", str(to_z3(tup(h)))[:70].replace("\n", " "), "... ->", impl_nifr(tup(h)))
+        o = impl_nifr(t)
+        o_cmp = tup(json.loads(json.dumps(o)))
+        print("this call, after the earlier calls:", o); print("this call, in a fresh process:   ", fresh)
+        return 0 if fresh is not None and o_cmp == fresh else 1
     o = impl_nifr(t)
     print("regex:", str(to_z3(t))[:400]); print("impl:", o)
     if "expected" in w and w["expected"] == "Nothing":
